@@ -22,7 +22,10 @@ MANIFEST = {
             "the chain is positively homogeneous of degree 1, each axis depends on its own gradient only, ok holds "
             "exactly when every squared norm is below 1, the two percent factors cancel. alpha, the three branch "
             "expressions, padding arithmetic, raster-centre offset and the strictness of ok are re-read from the source "
-            "on every run. Random sequences (trapezoid/extended/arbitrary gradients, channel subsets, delays, chained "
+            "on every run. End-to-end theorem: every returned component equals the SAFE recursive model on the "
+            "centre-sampled gradient within the truncation bound (2*eps*M*sum|a| under the tap-count condition that the "
+            "harness evaluates on the implementation's own tap count); sign case and time-shift invariance proved. "
+            "Random sequences (trapezoid/extended/arbitrary gradients, channel subsets, delays, chained "
             "non-zero block edges, rasters 10/20 us, several gamma, random hardware) run through calculate_pns and are "
             "compared with an independent exact-Fraction SAFE evaluation (recursive filter, per-event sampling at raster "
             "centres) and with the extracted Coq model.",
@@ -43,7 +46,9 @@ RULE = ('sequences of 1-4 blocks with, per channel, none / trapezoid / extended 
         '20 us, gamma from 5 nuclei (one negative), hardware with 9 random time constants, weights summing to 1 '
         '(sometimes off by <= 5e-4), random stim_limit/stim_thresh/g_scale; all numbers short decimals. Oracle: exact '
         'Fractions, recursive filter, gradient evaluated event by event at raster centres; components, norm, count and ok '
-        'compared. distinct = distinct cases; non-trivial = at least one axis with peak stimulation > 1e-3')
+        'compared. Fixed extra streams: 8 multi-axis near-threshold cases on non-proton systems (every component < 1, norm in '
+        '[0.9, 1.2]), 8 sequences written to a .seq file with a 20/5 us gradient raster and read into a default-raster '
+        'Sequence, scaled (|c|) and time-shifted re-runs of ~30% of the cases. distinct = distinct cases; non-trivial = at least one axis with peak stimulation > 1e-3')
 TRUSTED = ['binary64 arithmetic of NumPy/SciPy (PPoly evaluation, np.convolve, np.diff) is outside the model: sampled',
            'tap count n = min(round(log(eps)/log(1-alpha)), N) is computed by the harness with the same float formula '
            'and passed to the model; the oracle tolerance contains the exact truncation bound M(1-alpha)^n',
@@ -58,7 +63,7 @@ ASSUMPTIONS = ['inputs are short decimals: the implementation receives the neare
                'equal all(returned pns_norm < 1) exactly)']
 
 AX = 'xyz'
-GAMMAS = ['42576000', '42576000', '10708400', '40052000', '17235000', '-27116000']
+GAMMAS = ['42576000', '42576000', '10708400', '40052000', '17235000', '-27116000', '11262000']
 
 
 # ------------------------------------------------------------------------------------------------
@@ -268,8 +273,24 @@ def build_seq(case, gscale=None):
     return seq
 
 
+def reread(case, seq):
+    """write the sequence (its own gradient raster is in the file's [DEFINITIONS]) and read it into a Sequence whose
+    system has the DEFAULT rasters (10 us gradient raster) and the case's gamma"""
+    import os
+    import tempfile
+    import pypulseq as pp
+    with tempfile.TemporaryDirectory(prefix='pvC20') as d:
+        fn = os.path.join(d, 'a.seq')
+        seq.write(fn, create_signature=False)
+        s2 = pp.Sequence(pp.Opts(gamma=fl(case['gamma'])))
+        s2.read(fn)
+    return s2
+
+
 def run_impl(case, gscale=None):
     seq = build_seq(case, gscale)
+    if case.get('via_file'):
+        seq = reread(case, seq)
     ok, norm, comp, t = seq.calculate_pns(make_hw(case), do_plots=False)
     return seq, bool(ok), np.asarray(norm, dtype=float), np.asarray(comp, dtype=float), np.asarray(t, dtype=float)
 
@@ -419,6 +440,58 @@ def impl_taps(case, nt):
     return p1, p2, N, taps
 
 
+_TAPS = {}
+
+
+def probe_tap_count(tau, raster_us, N):
+    """the tap count the implementation really uses, observed from outside: impulse response of safe_tau_lowpass
+    (alpha (1-alpha)^k for k < n, exactly 0 afterwards)"""
+    key = (tau, raster_us, N)
+    if key not in _TAPS:
+        from pypulseq.utils.safe_pns_prediction import safe_tau_lowpass
+        x = np.zeros(N)
+        x[0] = 1.0
+        y = np.asarray(safe_tau_lowpass(x, fl(tau), (raster_us / 1e6) * 1000))
+        nz = np.nonzero(y)[0]
+        _TAPS[key] = int(nz[-1]) + 1 if len(nz) else 0
+    return _TAPS[key]
+
+
+def tap_side_condition(ctx, case, nt, info):
+    """tap_count_ok of the theorems (C20_axis_error_under_tap_count), exact, on the implementation's own n"""
+    import translate
+    eps = translate.CONSTS.get('pns', {}).get('eps', Fraction(1, 10 ** 16))
+    p1, p2 = info['pads']
+    N = p1 + nt + p2 - 1
+    dtms = Fraction(case['raster_us'], 1000)
+    lines = []
+    for ax in AX:
+        for j, tau in enumerate(case['hw'][ax]['tau']):
+            n = probe_tap_count(tau, case['raster_us'], N)
+            if n != info['taps'][ax][j]:
+                ctx.count('taps.formula_differs_from_probe')
+                info['taps'][ax][j] = n
+            alpha = dtms / (Fraction(tau) + dtms)
+            r = 1 - alpha
+            ok = 1 <= n <= N and (n == N or r ** (n + 1) <= eps)
+            tight = n >= 1 and eps <= r ** (n - 1)
+            ctx.count('taps.%s' % ('full' if n == N else 'truncated'))
+            if not tight:
+                ctx.count('taps.more_than_needed')
+            if not ok:
+                ctx.fail('C20/tap-count', case, {'axis': ax, 'filter': j + 1, 'n': n, 'N': N, 'alpha': str(alpha),
+                                                 'eps': float(eps)})
+                return False
+            if n <= 200 and ctx.model_available and case['stream'] in ('tiny', 'small', 'corpus'):
+                lines.append(('pns.tapok %d %d %s' % (n, N, qtok(alpha)), ok, tight))
+    if lines:
+        outs = ctx.model([ln[0] for ln in lines])
+        for (ln, ok, tight), o in zip(lines, outs):
+            if o.split() != ['1' if ok else '0', '1' if tight else '0']:
+                ctx.mismatch('tapok', case, {'line': ln, 'model': o, 'harness': [ok, tight]})
+    return True
+
+
 def tolerances(case, gs, nt, taps, rel):
     """per-axis absolute tolerance: rel*peak + noise floor of the binary64 slew rate + exact FIR truncation bound"""
     dt = Fraction(case['raster_us'], 10 ** 6)
@@ -437,6 +510,10 @@ def tolerances(case, gs, nt, taps, rel):
             r = 1 - dtms / (Fraction(t) + dtms)
             trunc = max(trunc, Fraction(float(r) ** n) * 2)            # >= (1-alpha)^n, float pow error << factor 2
         tol[ax] = (Fraction(1, 10 ** 9) * (gmax / gamma / dt + M) + M * trunc) * gain
+        if case.get('via_file'):
+            # the file stores amplitudes with 6 significant digits (relative 5e-6 per event) and shapes on a 1e-7
+            # grid: |dg| <= 1e-5 |g| per event, events meet at a common value -> slew error <= 1e-5 (M + 3 Gmax/dt)
+            tol[ax] += Fraction(1, 10 ** 5) * (M + 3 * gmax / gamma / dt) * gain
     return tol
 
 
@@ -487,7 +564,7 @@ def oracle(ctx, case, ok, norm, comp, t, expect=None):
             ctx.fail('C20/ok', case, {'ok': ok, 'exact_peak_sq': float(pk)})
             return False, None
     else:
-        ctx.count('ok.guard_band_skipped')
+        ctx.count('ok.guard_band_skipped.' + str(case['stream']).split('*')[0].split('>>')[0])
     return True, {'gs': gs, 'exact': ex, 'peak': peak, 'taps': taps, 'pads': (p1, p2), 'tolabs': tolabs, 'nsq': nsq}
 
 
@@ -645,6 +722,8 @@ def one_case(ctx, case, with_model, mode, sample_it=False):
         ctx.count('fir.truncated')
     else:
         ctx.count('fir.full')
+    if not tap_side_condition(ctx, case, nt, info):
+        return
     if sample_it:
         ctx.sample({'raster_us': case['raster_us'], 'gamma': case['gamma'], 'blocks': case['blocks'], 'samples': nt,
                     'ok': ok, 'peak_norm': float(norm.max()), 'taps': info['taps'], 'pads': info['pads']})
@@ -664,7 +743,21 @@ def one_case(ctx, case, with_model, mode, sample_it=False):
         scaled['blocks'] = scale_blocks(case['blocks'], Fraction(c))
         scaled['stream'] = case['stream'] + '*' + c
         oracle(ctx, scaled, ok2, norm2, comp2, t2, expect=ex2)
-    if with_model and ctx.model_available:
+    # time-shift invariance: delaying every gradient by m raster steps delays the prediction by m samples
+    if ctx.rng_h.random() < 0.3 and not case.get('via_file'):
+        m = ctx.rng_h.randint(1, 7)
+        shifted = dict(case)
+        shifted['blocks'] = [{'delay': m, 'ev': {}}] + case['blocks']
+        shifted['stream'] = case['stream'] + '>>%d' % m
+        try:
+            _, ok3, norm3, comp3, t3 = run_impl(shifted)
+        except Exception as e:  # noqa: BLE001
+            ctx.fail('C20/raises-shifted', case, {'exception': repr(e), 'm': m})
+            return
+        ex3 = {ax: [Fraction(0)] * m + list(info['exact'][ax]) for ax in AX}
+        ctx.count('timeshift.checked')
+        oracle(ctx, shifted, ok3, norm3, comp3, t3, expect=ex3)
+    if with_model and ctx.model_available and not case.get('via_file'):
         if not check_waveforms(ctx, case, seq):
             return
         lines = [model_line(case, info['taps'], mode)]
@@ -676,6 +769,16 @@ def one_case(ctx, case, with_model, mode, sample_it=False):
         if mode == 0 and outs[0] != outs[1]:
             ctx.mismatch('calc.conv-vs-fast', case, {'note': 'the two proved-equal forms of the model differ'})
         ctx.count('model.%s' % ('conv+fast' if mode == 0 else 'fast'))
+        # the Coq SAFE reference [safe_axis] of the end-to-end theorem is the oracle's formula: exact equality
+        dt = Fraction(case['raster_us'], 10 ** 6)
+        sl = ['pns.safe %s %s %s %d %s' % (qtok(Fraction(case['gamma'])), qtok(dt), hw_toks(case['hw'][ax]), nt,
+                                           ' '.join(qtok(v) for v in info['gs'][ax])) for ax in AX]
+        for ax, o in zip(AX, ctx.model(sl)):
+            tk = Toks(o)
+            ref = tk.list(tk.q)
+            if ref != list(info['exact'][ax]):
+                ctx.mismatch('safe-reference', case, {'axis': ax, 'note': 'Coq safe_axis differs from the oracle formula'})
+                break
 
 
 def scale_blocks(blocks, c):
@@ -771,6 +874,99 @@ def threshold_case(ctx, rng):
                                                    'stim_limit': float(hw.y.stim_limit)})
 
 
+def rescale(case, fac):
+    """multiply the amplitudes of channel ch by fac[ch] (Fractions), rounded to 2 decimals"""
+    def q(v, c):
+        return '%.2f' % float(Fraction(round(c * Fraction(v) * 100), 100))
+    out = dict(case)
+    out['blocks'] = []
+    for b in case['blocks']:
+        ev = {}
+        for ch, e in b['ev'].items():
+            e = dict(e)
+            c = fac[ch]
+            if e['k'] == 'trap':
+                e['amp'] = q(e['amp'], c)
+                if Fraction(e['amp']) == 0:
+                    e['amp'] = '0.01'
+            elif e['k'] == 'ext':
+                e['a'] = [q(a, c) for a in e['a']]
+            else:
+                e['w'] = [q(w, c) for w in e['w']]
+            ev[ch] = e
+        out['blocks'].append({'delay': b['delay'], 'ev': ev})
+    return out
+
+
+NONPROTON = ['10708400', '40052000', '17235000', '11262000', '-27116000', '6536000']
+
+
+def exact_peaks(case):
+    nt = last_grad_end(case)
+    ex = safe_exact(case, {ax: sample_design(case, ax, nt) for ax in AX})
+    comp = {ax: max(ex[ax]) for ax in AX}
+    norm = max(sum(ex[ax][k] ** 2 for ax in AX) for k in range(nt))
+    return comp, Fraction(math.sqrt(float(norm)))
+
+
+def gen_near(rng, i):
+    """two or three axes active in the same block, every component peak below 1, peak norm in [0.9, 1.2] and at least
+    1% away from 1; non-proton gamma"""
+    for attempt in range(40):
+        case = gen_case(rng, True, 'near')
+        case['gamma'] = NONPROTON[(i + attempt) % len(NONPROTON)]
+        # same-block activity on >= 2 axes: copy the first block's first event onto further axes when missing
+        b0 = case['blocks'][0]
+        if not b0['ev']:
+            continue
+        first = next(iter(b0['ev'].values()))
+        naxes = rng.choice([2, 3, 3])
+        for ch in AX[:naxes]:
+            if ch not in b0['ev']:
+                e = dict(first)
+                b0['ev'][ch] = e
+        if any(e['k'] == 'ext' and Fraction(e['a'][-1]) != 0 for e in b0['ev'].values()) and len(case['blocks']) > 1:
+            # a copied chained event needs its continuation: keep it simple, end it at zero
+            for e in b0['ev'].values():
+                if e['k'] == 'ext':
+                    e['a'] = list(e['a'][:-1]) + ['0']
+            for ch, e in list(case['blocks'][1]['ev'].items()):
+                if e['k'] == 'ext':
+                    e['a'] = ['0'] + list(e['a'][1:])
+        comp, _ = exact_peaks(case)
+        act = [ax for ax in AX if comp[ax] > 0]
+        if len(act) < 2:
+            continue
+        # balance the axes, then put the norm on target
+        case = rescale(case, {ax: (Fraction(rng.randint(40, 75), 100) / comp[ax] if comp[ax] > 0 else Fraction(1))
+                              for ax in AX})
+        comp, nrm = exact_peaks(case)
+        if nrm == 0:
+            continue
+        target = Fraction(rng.choice([rng.randint(90, 98), rng.randint(102, 120), rng.randint(102, 120)]), 100)
+        c = target / nrm
+        case = rescale(case, {ax: c for ax in AX})
+        comp, nrm = exact_peaks(case)
+        if max(comp.values()) < Fraction(99, 100) and Fraction(9, 10) <= nrm <= Fraction(6, 5) \
+                and abs(nrm - 1) > Fraction(1, 100) and len([ax for ax in AX if comp[ax] > Fraction(3, 10)]) >= 2:
+            return case
+    return None
+
+
+def file_case(rng, i):
+    c = gen_case(rng, True, 'file')
+    c['raster_us'] = [20, 5][i % 2]
+    c['via_file'] = True
+    # the 1.4 file format does not store first/last of a raster gradient: read() re-derives `last` by linear
+    # extrapolation of the final two samples.  Two trailing zero samples make that extrapolation the designed 0, so the
+    # waveform on the file's raster is unambiguous (what read() reconstructs otherwise belongs to C01/C08)
+    for b in c['blocks']:
+        for e in b['ev'].values():
+            if e['k'] == 'arb':
+                e['w'] = list(e['w']) + ['0', '0']
+    return c
+
+
 def run(ctx):
     ctx.rng_h = ctx.rng('homogeneity')
     for c in corpus():
@@ -780,6 +976,20 @@ def run(ctx):
             boundary_case(ctx, c)
     threshold_case(ctx, ctx.rng('threshold'))
     filter_stream(ctx, ctx.rng('filter'), {'quick': 40, 'thorough': 1500}[ctx.tier])
+    # multi-axis near-threshold cases on non-proton systems (always present, fixed count)
+    rng_n = ctx.rng('near')
+    for i in range({'quick': 8, 'thorough': 200}[ctx.tier]):
+        c = gen_near(rng_n, i)
+        if c is None:
+            ctx.count('near.not_constructed')
+            continue
+        ctx.count('near.%s' % ('above1' if exact_peaks(c)[1] > 1 else 'below1'))
+        one_case(ctx, c, False, 1)
+    # sequences that went through a .seq file with a gradient raster different from the loading system's
+    rng_f = ctx.rng('file')
+    for i in range({'quick': 8, 'thorough': 200}[ctx.tier]):
+        c = file_case(rng_f, i)
+        one_case(ctx, c, False, 1)
     rng_s, rng_b = ctx.rng('small'), ctx.rng('big')
     n_small = {'quick': 15, 'thorough': 500}[ctx.tier]
     n_big = {'quick': 60, 'thorough': 2500}[ctx.tier]
